@@ -26,7 +26,7 @@ RULE = {"Integer": "0...99", "Decimal": "0...99.5", "DateTime": "YYYY-MM-DD", "C
 def ok_cell(kind, value):
     return {"Integer": "%d" % value, "Decimal": "%d.5" % value, "DateTime": "2020-02-%02d" % value,
             "Choice": ["red", "green", "blue", "black"][value % 4], "Pattern": "a%d" % value, "RegEx": "b%d" % value,
-            "Text": "t%d" % value}[kind]
+            "Text": "v%d.0" % value}[kind]  # (text that looks like a number with a fractional suffix must stay text)
 
 
 def bad_cell(kind, value):
